@@ -53,6 +53,8 @@ def concrete(mf: dict, fr: str, scale: int = 1) -> list[dict]:
         return [{"k": "garbage", "d": d}, {"k": "short", "d": d}, {"k": "badcrc", "d": d}]
     if k in ("dupg", "dup", "ansg", "gans"):
         return [{"k": k, "d": d}]
+    if k in ("dupx", "ansx"):
+        return [{"k": k, "code": x, "d": d}]
     if k == "exc":
         return [{"k": "exc", "code": x, "d": d}]
     if k == "lone":
@@ -62,6 +64,9 @@ def concrete(mf: dict, fr: str, scale: int = 1) -> list[dict]:
         return [{"k": "frag", "split": split, "d": d, "d2": d2, "second": second}]
     if k == "pclose":
         return [{"k": "pclose", "d": d}]
+    if k == "eof":
+        # the peer closes in an orderly way (FIN: eof_received first); datagram sockets have no such event
+        return [{"k": "eof" if fr == "tcp" else "pclose", "d": d}]
     if k == "err":
         return [{"k": "err", "d": d, "err": x}]
     raise ValueError(k)
